@@ -60,6 +60,8 @@ type PFCPConn struct {
 	// channel to signal PFCPNode on exit
 	done     chan<- string
 	shutdown chan struct{}
+	// shutdownOnce makes Shutdown idempotent: it can be triggered by the peer, by timers and by the node
+	shutdownOnce sync.Once
 
 	metrics.InstrumentPFCP
 
@@ -240,8 +242,13 @@ func (pConn *PFCPConn) Serve() {
 	}
 }
 
-// Shutdown stops connection backing PFCPConn.
+// Shutdown stops connection backing PFCPConn. Only the first call has an effect; concurrent
+// callers return once it has completed.
 func (pConn *PFCPConn) Shutdown() {
+	pConn.shutdownOnce.Do(pConn.doShutdown)
+}
+
+func (pConn *PFCPConn) doShutdown() {
 	verifPoint("conn.shutdown.enter", pConn.RemoteAddr().String())
 	close(pConn.shutdown)
 	verifPoint("conn.shutdown.closed", pConn.RemoteAddr().String())
